@@ -209,11 +209,26 @@ func (s *c06Stream) SetReadDeadline(time.Time) error { return nil }
 // the server closed it with an error.
 type c06QUICConn struct {
 	quic.Connection
-	closed string
+	streams []quic.Stream
+	closed  string
 }
 
-func (c *c06QUICConn) LocalAddr() net.Addr  { return &net.UDPAddr{IP: net.IP{127, 0, 0, 1}, Port: 853} }
-func (c *c06QUICConn) RemoteAddr() net.Addr { return &net.UDPAddr{IP: net.IP{192, 0, 2, 9}, Port: 4000} }
+// AcceptStream hands out the scripted streams, then reports that the peer has
+// closed the connection.
+func (c *c06QUICConn) AcceptStream(context.Context) (quic.Stream, error) {
+	if len(c.streams) == 0 {
+		return nil, &quic.ApplicationError{Remote: true, ErrorCode: 0}
+	}
+	st := c.streams[0]
+	c.streams = c.streams[1:]
+
+	return st, nil
+}
+func (c *c06QUICConn) ConnectionState() quic.ConnectionState { return quic.ConnectionState{} }
+func (c *c06QUICConn) LocalAddr() net.Addr                   { return &net.UDPAddr{IP: net.IP{127, 0, 0, 1}, Port: 853} }
+func (c *c06QUICConn) RemoteAddr() net.Addr {
+	return &net.UDPAddr{IP: net.IP{192, 0, 2, 9}, Port: 4000}
+}
 func (c *c06QUICConn) CloseWithError(code quic.ApplicationErrorCode, _ string) error {
 	c.closed = fmt.Sprintf("closed(%d)", code)
 
@@ -320,17 +335,18 @@ func (p *c06DoQ) feed(msg []byte) string {
 	p.fed++
 	binary.BigEndian.PutUint16(framed, uint16(pfx))
 	copy(framed[2:], msg)
-	// The whole stream is served by the real serveQUICStream: what the handler
-	// decoded, what was written back and whether the connection was closed.
+	// The stream is served by the real serveQUICConn (one connection whose
+	// only stream carries the message): what the handler decoded, what was
+	// written back and how the connection was closed.
 	h := p.s.handler.(*c06Handler)
 	before := len(h.seen)
 	st := &c06Stream{r: bytes.NewReader(framed)}
-	conn := &c06QUICConn{}
+	conn := &c06QUICConn{streams: []quic.Stream{st}}
+	p.s.started = true
 	ctx := ContextWithServerInfo(context.Background(), &ServerInfo{Name: "verif", Addr: "127.0.0.1:853", Proto: ProtoDoQ})
-	ctx = ContextWithRequestInfo(ctx, &RequestInfo{StartTime: time.Unix(1700000000, 0)})
-	err := p.s.serveQUICStream(ctx, st, conn)
+	_ = p.s.serveQUICConn(ctx, conn)
 
-	return fmt.Sprintf("err=%v decoded=%q written=%x %s", err != nil, h.seen[before:], st.w.Bytes(), conn.closed)
+	return fmt.Sprintf("decoded=%q written=%x %s", h.seen[before:], st.w.Bytes(), conn.closed)
 }
 
 type c06DoH struct {
@@ -520,8 +536,137 @@ func TestVerifC06Server(t *testing.T) {
 
 		return nil
 	})
+	// Two streams of one DoQ connection whose reads interleave.
+	vrt.Part(r, "doq-interleaved", func(emit func(c06InterCase)) {
+		for a := range priors {
+			for b := range priors {
+				if a == b {
+					continue
+				}
+				for _, cut := range []int{1, 2, 3, 14, len(priors[a]) + 1} {
+					emit(c06InterCase{A: a, B: b, Cut: cut})
+				}
+			}
+		}
+	}, func(c c06InterCase) []vrt.Finding {
+		r.Trans(2)
+		r.Class("doq-interleaved")
+		r.State(fmt.Sprint("inter", c.A, c.B, c.Cut))
+
+		return c06DoQInterleaved(priors[c.A], priors[c.B], c.Cut)
+	})
 	r.Finish()
 	os.Exit(0)
+}
+
+// c06GatedStream delivers its octets in two parts; the second part (and the
+// end of the stream) is held back until gate is closed.
+type c06GatedStream struct {
+	quic.Stream
+	first, rest []byte
+	gate        chan struct{}
+	onClose     func()
+	w           bytes.Buffer
+	state       int
+}
+
+func (s *c06GatedStream) Read(p []byte) (int, error) {
+	switch s.state {
+	case 0:
+		n := copy(p, s.first)
+		s.first = s.first[n:]
+		if len(s.first) == 0 {
+			s.state = 1
+		}
+
+		return n, nil
+	case 1:
+		if s.gate != nil {
+			<-s.gate
+		}
+		n := copy(p, s.rest)
+		s.rest = s.rest[n:]
+		if len(s.rest) == 0 {
+			s.state = 2
+		}
+
+		return n, nil
+	default:
+		return 0, io.EOF
+	}
+}
+func (s *c06GatedStream) Write(p []byte) (int, error) { return s.w.Write(p) }
+func (s *c06GatedStream) Close() error {
+	if s.onClose != nil {
+		s.onClose()
+		s.onClose = nil
+	}
+
+	return nil
+}
+func (s *c06GatedStream) SetReadDeadline(time.Time) error { return nil }
+
+// c06DoQInterleaved serves two streams of ONE connection: the query on the
+// first stream arrives only in part, then the complete query of the second
+// stream is read and answered, then the rest of the first one arrives.  The
+// response on each stream must answer the query of that stream.
+func c06DoQInterleaved(qa, qb []byte, cut int) (fs []vrt.Finding) {
+	frame := func(m []byte) []byte {
+		f := make([]byte, 2+len(m))
+		binary.BigEndian.PutUint16(f, uint16(len(m)))
+		copy(f[2:], m)
+
+		return f
+	}
+	h := &c06Handler{}
+	s := NewServerQUIC(ConfigQUIC{ConfigBase: ConfigBase{Name: "verif", Addr: "127.0.0.1:0", Handler: h}})
+	s.started = true
+	defer s.pool.Release()
+	fa := frame(qa)
+	gate := make(chan struct{})
+	var once sync.Once
+	stA := &c06GatedStream{first: fa[:cut], rest: fa[cut:], gate: gate}
+	stB := &c06GatedStream{first: frame(qb), onClose: func() { once.Do(func() { close(gate) }) }}
+	conn := &c06QUICConn{streams: []quic.Stream{stA, stB}}
+	ctx := ContextWithServerInfo(context.Background(), &ServerInfo{Name: "verif", Addr: "127.0.0.1:853", Proto: ProtoDoQ})
+	done := make(chan struct{})
+	go func() {
+		_ = s.serveQUICConn(ctx, conn)
+		close(done)
+	}()
+	select {
+	case <-done:
+	case <-time.After(60 * time.Second):
+		// Stream B was never finished, so stream A is still waiting.
+		once.Do(func() { close(gate) })
+		<-done
+
+		return vrt.F("doq-interleaved/second-stream-not-served-while-first-is-incomplete", "the query on the second stream of a connection was not answered while the first stream was still incomplete")
+	}
+	for _, x := range []struct {
+		name string
+		q    []byte
+		st   *c06GatedStream
+	}{{"first", qa, stA}, {"second", qb, stB}} {
+		want := &dns.Msg{}
+		_ = want.Unpack(x.q)
+		w := x.st.w.Bytes()
+		got := &dns.Msg{}
+		if len(w) < 2 || got.Unpack(w[2:]) != nil {
+			return vrt.F("doq-interleaved/no-decodable-response", "the %s stream (query %s, first part of %d octets held apart from the rest) received %x", x.name, want.Question[0].Name, cut, w)
+		}
+		if len(got.Question) != 1 || got.Question[0].Name != want.Question[0].Name || got.Question[0].Qtype != want.Question[0].Qtype {
+			return vrt.F("doq-interleaved/response-answers-another-streams-query", "the %s stream asked %s and received a response for %v (first stream cut after %d octets; the other stream's query was read in between)", x.name, want.Question[0].Name, got.Question, cut)
+		}
+	}
+
+	return nil
+}
+
+type c06InterCase struct {
+	A   int `json:"first_stream_query"`
+	B   int `json:"second_stream_query"`
+	Cut int `json:"first_part_octets"`
 }
 
 type c06MixedCase struct {
